@@ -28,7 +28,7 @@ Requests (`n` = size of the alphabet, `falsy` = leaf classes that are false in b
   {"op":"mn","k":k,"v":V} -> {"r":D} | {"e":…}                     (get_most_nested_subdict_with, nested_dicts = [])
   {"op":"zip","n":n,"zk":k,"values":[D..],"falsy":[..]} -> {"common":D,"zip":[D..]|null,"recs":[D..]} | {"e":"Other:TypeError"}
   {"op":"group","n":n,"o":k,"ch":k,"tt":c,"ff":c,"ctxs":[D..],"falsy":[..]} -> {"ctx":D,"inter":D,"recs":[D..]}
-  {"op":"uwg","n":n,"o":k,"ch":k,"tt":c,"ff":c,"ctx":D,"new":[D..],"old":D,"falsy":[..]} -> {"ctx":D}
+  {"op":"uwg","n":n,"o":k,"ch":k,"tt":c,"ff":c,"ctx":D,"new":[D..],"old":D[,"oldgrp":[D..]],"falsy":[..]} -> {"ctx":D}
   {"op":"mutupd","d":T,"other":T,"c":c} -> {"d":T,"log":[ids]} | {"e":"LenaTypeError"}   (write log of update_recursively)
   {"op":"mutnest","k":k,"d":T,"other":T,"c":c} -> {"d":T,"log":[ids]} | {"e":"Other:TypeError"} -/
 open Lean Lena Lena.Drv Lena.Val Lena.C07
@@ -66,6 +66,8 @@ def natList? (j : Json) : Option (List Nat) := do
   let a ← arr? j
   a.toList.mapM nat?
 
+def normTok (c0 t : Nat) : Json := if t ≥ c0 then ofInt (-1) else ofNat t
+
 partial def toTVal (j : Json) : Option (TVal Int) :=
   match arr? (getD j "s") with
   | some a => do
@@ -87,9 +89,14 @@ def tokAt (truthy : Int → Bool) (n c : Nat) (a : TVal Int) (b : Slots Int) (lv
   let d0 := match a with
     | .dict t l => some (t, l)
     | .leaf _ _ => none
+  let ti := (interT n lv c d0 [b]).1
+  let td := (diffTV truthy lv a (.dict b) c).1
   Json.mkObj [
-    ("inter", ofTVal c (interT n lv c d0 [b]).1),
-    ("diff", ofTVal c (diffTV truthy lv a (.dict b) c).1)]
+    ("inter", ofTVal c ti), ("diff", ofTVal c td),
+    -- the vocabulary of the theorems, executed: identities reachable from the results, values without identities
+    ("itoks", Json.arr ((toksV ti).map (normTok c)).toArray), ("dtoks", Json.arr ((toksV td).map (normTok c)).toArray),
+    ("ierase", ofVal (eraseV ti)), ("derase", ofVal (eraseV td)),
+    ("dsubs", Json.arr ((subsV td).map (fun s => match rootTok s with | some t => normTok c t | none => Json.null)).toArray)]
 
 def ofOutX : OutX (Slots Int) → Json
   | .ok l => Json.mkObj [("r", ofDict l)]
@@ -111,8 +118,6 @@ def toOther (j : Json) : Option (Other Int) :=
 
 def dictList? (j : Json) : Option (List (Slots Int)) :=
   (arr? j).bind (fun a => a.toList.mapM toDict)
-
-def normTok (c0 t : Nat) : Json := if t ≥ c0 then ofInt (-1) else ofNat t
 
 def pathAt (d o : Slots Int) (p : List Nat) : Json :=
   Json.mkObj [
@@ -237,21 +242,29 @@ def handle (j : Json) : Json :=
     match nat? (getD j "n"), nat? (getD j "o"), nat? (getD j "ch"), int? (getD j "tt"), int? (getD j "ff"),
         toDict (getD j "ctx"), dictList? (getD j "new"), toDict (getD j "old") with
     | some n, some o, some ch, some tt, some ff, some ctx, some nw, some old =>
-      Json.mkObj [("ctx", ofDict (updateWithGroup (truthyOf j) n o ch tt ff ctx nw old))]
+      -- MapGroup.run computes the old intersection itself from context.group ("oldgrp")
+      let old' := match dictList? (getD j "oldgrp") with
+        | some og => splitGetContext n og
+        | none => old
+      Json.mkObj [("ctx", ofDict (updateWithGroup (truthyOf j) n o ch tt ff ctx nw old'))]
     | _, _, _, _, _, _, _, _ => err "bad uwg args"
   | some "mutupd" =>
     match toTVal (getD j "d"), toTVal (getD j "other"), nat? (getD j "c") with
     | some d, some o, some c =>
       match updT d o c with
-      | some st => Json.mkObj [("d", ofTVal c st.val), ("log", Json.arr (st.log.map (normTok c)).toArray)]
+      | some st => Json.mkObj [("d", ofTVal c st.val), ("log", Json.arr (st.log.map (normTok c)).toArray),
+          ("dicts", Json.arr ((dictToksV d).map ofNat).toArray),
+          ("objs", Json.arr ((toksV st.val).map (normTok c)).toArray), ("erase", ofVal (eraseV st.val)),
+          ("subs", Json.arr ((subsV st.val).map (fun s => match rootTok s with | some t => normTok c t | none => Json.null)).toArray)]
       | none => Json.mkObj [("e", "LenaTypeError")]
     | _, _, _ => err "bad mutupd args"
   | some "mutnest" =>
     match nat? (getD j "k"), toTVal (getD j "d"), toTVal (getD j "other"), nat? (getD j "c") with
     | some k, some (.dict td x), some (.dict to y), some c =>
-      match updateNestedT k td x to y with
-      | some (d', log) => Json.mkObj [("d", ofTVal c d'), ("log", Json.arr (log.map (normTok c)).toArray)]
-      | none => Json.mkObj [("e", "Other:TypeError")]
+      match toOut (updateNestedT k td x to y) with
+      | .ok (d', log) => Json.mkObj [("d", ofTVal c d'), ("log", Json.arr (log.map (normTok c)).toArray),
+          ("erase", ofVal (eraseV d'))]
+      | _ => Json.mkObj [("e", "Other:TypeError")]
     | _, _, _, _ => err "bad mutnest args"
   | some "paths" =>
     match toDict (getD j "d"), toDict (getD j "o"), (arr? (getD j "paths")).bind (fun a => a.toList.mapM natList?) with
